@@ -59,6 +59,9 @@ var poison = []string{
 	"let zzC s =\n  match s s with\n  | _ -> 1\n",
 	"let zzD x = [x; [x]]\n",
 	"let zzI x = [x; [x]; [[x]]]\n",
+	"let zzM a b c =\n  [a; [[b]]]\n  [b; [[c]]]\n  [c; [[a]]]\n  [a; [c]]\n",
+	"package_info _ =\n  type ZzBox<T>\n  let zzwrap<T>: T->ZzBox<T>\n  let zzwrap2<T>: T->ZzBox<ZzBox<T>>\n\nlet zzN x =\n  [x; zzwrap2 x; zzwrap x]\n",
+	"let zzO a c =\n  [a; c]\n  [a; [[c]]]\n",
 	"let zzJ n = [n; n.next; n.next.next]\n",
 	"let zzK x = [x; (x, x); ((x, x), (x, x))]\n",
 	"let zzL x =\n  let a = [x]\n  let b = [a]\n  [x; a; b]\n",
